@@ -208,6 +208,9 @@ for m in (1, 16):
     H("f0_cap_any_m%d" % m, "__verif::f0", "F0", quick=["C19", "C09"] + (["C18"] if m == 1 else []), thorough=["C09", "C18", "C19"], cost=20,
       stubs=STUB_NULL, inst="Bump<%d>" % m, funcs=F0_FUNCS, bounds={"capacity": "any usize", "allocator": "A-null"})
 
+H("f0_sentinel_align", "__verif::f0", "F0", quick=["C04"], thorough=["C04", "C20"], cost=3, inst="-", funcs=["static EMPTY_CHUNK"],
+  bounds={"fact": "align_of_val(&EMPTY_CHUNK) >= 16 (compile-time layout fact; CBMC cannot observe the linker's placement)"})
+
 # ---------------------------------------------------------------------------
 # F8 chunk iteration
 # ---------------------------------------------------------------------------
@@ -215,6 +218,41 @@ for (m, k) in [(1, 1), (1, 2), (1, 3), (8, 2), (16, 3)]:
     H("f8_iter_m%d_k%d" % (m, k), "__verif::f8", "F8", quick=["C10"] if (m, k) in [(1, 2), (16, 3)] else [], thorough=["C10"], cost=30,
       stubs=STUB_CUT, inst="Bump<%d>" % m, funcs=["Bump::iter_allocated_chunks", "Bump::iter_allocated_chunks_raw", "ChunkRawIter::next", "ChunkIter::next", "ChunkFooter::as_raw_parts"],
       bounds={"chunks": k, "finger_positions": "any (symbolic per chunk)", "chunk_usable_sizes": [448, 960, 1984][:k]})
+
+
+# ---------------------------------------------------------------------------
+# F7 init glue (C02) and failed-initialiser protocol (C11)
+# ---------------------------------------------------------------------------
+STUB_CNO_LOOP = ["core::ptr::copy_nonoverlapping->cno_loop"]
+F7TW = ["Bump::alloc_try_with", "Bump::try_alloc_try_with", "Bump::alloc_with", "Bump::try_alloc_with", "Bump::is_last_allocation", "Bump::try_alloc_layout"]
+def _f7(name, quick, thorough, stubs, funcs, bounds, inst, cost=40, allow=(), exempt=()):
+    H(name, "__verif::f7", "F7", quick=quick, thorough=thorough, timeout=1500, cost=cost, stubs=stubs, inst=inst, funcs=funcs, bounds=bounds, allow=allow, exempt=exempt)
+for m in (1, 8, 16):
+    _f7("f7_tw_same_try_m%d" % m, ["C11"] if m in (1, 16) else [], ["C11", "C02", "C09"], STUB_NULL, F7TW,
+        {"chunk": "256-byte chunk, symbolic start/finger", "value": "Result<u64, E(u32, D)>", "initialiser": "fails or succeeds (symbolic)", "allocator": "A-null"}, "Bump<%d>, T=u64, E=(u32, Drop-ledger)" % m, cost=120)
+for m in (1, 16):
+    _f7("f7_tw_same_inf_m%d" % m, ["C11"] if m == 1 else [], ["C11", "C02"], STUB_CUT, F7TW,
+        {"chunk": "256-byte chunk, symbolic start/finger", "value": "Result<u64, E(u32, D)>", "allocator": "A-cut"}, "Bump<%d>, alloc_try_with" % m, cost=120)
+for nm, m in (("f7_tw_newchunk_try_m8", 8), ("f7_tw_newchunk_inf_m4", 4), ("f7_tw_newchunk_inf_m16", 16)):
+    _f7(nm, ["C11"] if m == 16 else [], ["C11", "C10"], STUB_POOL, F7TW + ["Bump::alloc_layout_slow", "Bump::new_chunk"],
+        {"pre_state": "one 448-byte chunk with 16 bytes free (concrete)", "value": "Result<[u8;200], E>", "allocator": "A-pool, nothing refused"}, "Bump<%d>" % m, cost=60)
+for nm, m in (("f7_tw_nested_keep_m1", 1), ("f7_tw_nested_keep_m16", 16), ("f7_tw_nested_release_m1", 1), ("f7_tw_nested_release_m8", 8)):
+    _f7(nm, ["C11"] if m == 1 else [], ["C11", "C01", "C02"], STUB_CUT, F7TW + ["Bump::alloc", "<&Bump as Allocator>::deallocate"],
+        {"chunk": "256-byte chunk, concrete finger", "initialiser": "allocates a u32 (symbolic value), keeps or releases it, then fails"}, "Bump<%d>" % m, cost=30)
+for nm, m in (("f7_try_fill_with_m1", 1), ("f7_try_fill_with_m8", 8), ("f7_try_fill_iter_m1", 1)):
+    _f7(nm, ["C11", "C02"] if m == 1 else [], ["C11", "C02"], STUB_CUT, ["Bump::alloc_slice_try_fill_with", "Bump::alloc_slice_try_fill_iter", "Bump::dealloc"],
+        {"chunk": "256-byte chunk, finger in {0,16,100,256}", "len": "0..3 (3 for the iterator form)", "failing_index": "any or none", "element": "u32"}, "Bump<%d>" % m, cost=60)
+F7I = {"values": (0, ["Bump::alloc", "Bump::alloc_with", "Bump::try_alloc", "Bump::try_alloc_with"]),
+       "copy": (1, ["Bump::alloc_slice_copy", "Bump::try_alloc_slice_copy"]),
+       "str": (2, ["Bump::alloc_str", "Bump::try_alloc_str"]),
+       "clone": (3, ["Bump::alloc_slice_clone", "Bump::try_alloc_slice_clone"]),
+       "fill_with": (4, ["Bump::alloc_slice_fill_with", "Bump::try_alloc_slice_fill_with"]),
+       "fill_val": (5, ["Bump::alloc_slice_fill_copy/_clone/_default", "Bump::try_alloc_slice_fill_copy/_clone/_default"]),
+       "fill_iter": (6, ["Bump::alloc_slice_fill_iter", "Bump::try_alloc_slice_fill_iter"])}
+for nm, m in [("values", 1), ("values", 8), ("copy", 1), ("copy", 16), ("str", 1), ("clone", 1), ("fill_with", 1), ("fill_with", 4), ("fill_val", 1), ("fill_iter", 1), ("fill_iter", 2)]:
+    _f7("f7_init_%s_m%d" % (nm, m), ["C02"] if m == 1 else [], ["C02"], STUB_CUT + (STUB_CNO_LOOP if nm in ("copy", "str") else []), F7I[nm][1],
+        {"chunk": "256-byte chunk, finger in {16, 101*M, 256}", "len": "0..3", "element": "u32 (u8 for str)", "values": "symbolic"}, "Bump<%d>" % m, cost=30,
+        exempt=[r"REACH: \[(?!%s\])" % nm])
 
 
 for x in "abcdef":
